@@ -1096,12 +1096,18 @@ class Grid(object):
         if align_corners:
             spacing = (self.extent() - self.spacing()) / (size - 1)
             grid._spacing = torch.where(self._size.gt(0), spacing, self._spacing)
-            assert torch.allclose(grid.origin(), self.origin())
+            assert self._isclose(grid.origin(), self.origin())
         else:
             spacing = self.extent() / size
             grid._spacing = torch.where(self._size.gt(0), spacing, self._spacing)
-            assert torch.allclose(grid.extent(), self.extent())
+            assert self._isclose(grid.extent(), self.extent())
         return grid
+
+    def _isclose(self, a: Tensor, b: Tensor) -> bool:
+        r"""Whether world positions or lengths are equal up to rounding relative to the size of this grid in world units."""
+        with torch.no_grad():
+            scale = torch.cat([self._center.abs(), self.extent()]).max()
+            return bool(a.sub(b).abs().max().le(scale.mul(1e-5)))
 
     def resize(
         self,
